@@ -575,7 +575,7 @@ func RunPullProgram(p *Program) *Result {
 		return &Result{Trouble: "node: " + err.Error() + "\n" + spec.Render()}
 	}
 	w := &PullWorld{SysWorld: sw, recent: map[string]time.Time{}}
-	w.Model = NewModel(QConfig{Backend: spec.Backend, MaxDepth: spec.MaxDepth, DropPolicy: spec.DropPolicy, DeliveredMaxAge: spec.Delivered})
+	w.Model = NewModel(sysQConfig(&spec))
 	defer w.Close()
 	start := w.Clock.Peek()
 	w.Res.logf("pull world backend=%s routes=%d", spec.Backend, len(spec.Routes))
